@@ -149,7 +149,7 @@ def canon_place(b, pl):
     """(local, field names) of a place, looking through references to locals: `(*p).f` with `p = &mut x` is `x.f`
     (so that a struct handed to a helper by reference and updated there is the caller's struct in a flat view)."""
     l, proj = pl["l"], list(pl["p"])
-    for _ in range(8):
+    for _ in range(12):
         if proj and proj[0] == "deref":
             defs = b.assignments().get(l, [])
             if len(defs) == 1 and defs[0][1] != "term":
@@ -160,6 +160,16 @@ def canon_place(b, pl):
                 if rv["k"] == "use" and place_of(rv["op"]) is not None:
                     p2 = place_of(rv["op"])
                     l, proj = p2["l"], list(p2["p"]) + proj
+                    continue
+        elif proj and isinstance(proj[0], dict) and "f" in proj[0]:
+            # a captured variable of an inlined closure (`(*env).0`), a component of a tuple built right here: the
+            # field of an aggregate with a single definition is the operand it was built from
+            defs = b.assignments().get(l, [])
+            if len(defs) == 1 and defs[0][1] != "term" and defs[0][2]["k"] == "agg" and \
+                    defs[0][2].get("ak") in ("closure", "tuple") and proj[0]["f"] < len(defs[0][2]["ops"]):
+                p2 = place_of(defs[0][2]["ops"][proj[0]["f"]])
+                if p2 is not None:
+                    l, proj = p2["l"], list(p2["p"]) + proj[1:]
                     continue
         break
     return (l, tuple(e.get("n", e.get("f")) for e in proj if isinstance(e, dict) and "f" in e))
@@ -172,3 +182,19 @@ def canon_of_borrow(b, op):
     if pl is None:
         return None
     return canon_place(b, {"l": pl["l"], "p": list(pl["p"]) + ["deref"]})
+
+
+def flows_to(b, src, dst, depth=0):
+    """Is local `src` moved (whole) into local `dst` - directly or through the return place of an inlined constructor?"""
+    if src == dst:
+        return True
+    if depth > 6:
+        return False
+    for l, defs in b.assignments().items():
+        for (bb, j, rv) in defs:
+            if j != "term" and rv["k"] == "use":
+                pl = place_of(rv["op"])
+                if pl is not None and not pl["p"] and pl["l"] == src and l != src:
+                    if flows_to(b, l, dst, depth + 1):
+                        return True
+    return False
